@@ -7,7 +7,7 @@ VARIABLE l
 Verdict(ev) ==
   LET cs == ev.cs IN
   IF ev.res.k = "err" THEN "error"
-  ELSE CASE cs.op = "setop" -> IF SetOpOK(cs.kind, cs.a, cs.b, ev.res.labels) THEN "ok" ELSE "set_algebra"
+  ELSE CASE cs.op = "setop" -> IF (IF cs.bform = "index" THEN SetOpOK(cs.kind, cs.a, cs.b, ev.res.labels) ELSE SetOpOKAny(cs.kind, cs.a, cs.b, ev.res.labels)) THEN "ok" ELSE "set_algebra"
          [] cs.op = "s_binop" -> IF SeriesOpOK(cs.fn, cs.a, cs.b, ev.res) THEN "ok" ELSE "series_alignment"
          [] cs.op = "f_binop" -> IF FrameOpOK(cs.fn, cs.a, cs.b, ev.res) THEN "ok" ELSE "frame_alignment"
          [] cs.op = "fs_binop" -> IF FrameSeriesOpOK(cs.fn, cs.a, cs.b, ev.res) THEN "ok" ELSE "frame_series_alignment"
